@@ -20,26 +20,30 @@ type Clause struct {
 }
 
 type Contract struct {
-	Key       string // pkgpath + "." + relname
-	Pkg       string
-	Name      string
-	Params    []string
-	Results   []string
-	Requires  []Clause
-	Ensures   []Clause
-	Modifies  []string
-	LoopInv   map[int][]Clause
-	LoopMod   map[int][]string
-	Assumed   bool // contract is trusted, body not verified
-	MayPanic  bool
-	NoSafety  bool // do not generate the zero-annotation safety obligations for this function
-	Uncalled  bool // the function must have no caller in the loaded program
-	GhostOnly bool // applied in addition to the built-in model of the callee (ghost effects only)
-	Pure      bool // no heap effect at all (modifies nothing)
-	SameAs    string
-	Props     []string // properties this function's obligations count for
-	Where     string
-	Lets      [][2]string
+	Key          string // pkgpath + "." + relname
+	Pkg          string
+	Name         string
+	Params       []string
+	Results      []string
+	Requires     []Clause
+	Ensures      []Clause
+	Modifies     []string
+	LoopInv      map[int][]Clause
+	LoopMod      map[int][]string
+	Assumed      bool // contract is trusted, body not verified
+	MayPanic     bool
+	LockedAssume []Clause // assumed right after the function acquires its lock (trusted, listed)
+	CallersOnly  []string // the only functions allowed to call this one (call-graph obligation)
+	Reveal       []string // opaque spec definitions this function's proof may unfold
+	NoWrap       bool     // signed arithmetic: prove absence of overflow, then reason mathematically
+	NoSafety     bool     // do not generate the zero-annotation safety obligations for this function
+	Uncalled     bool     // the function must have no caller in the loaded program
+	GhostOnly    bool     // applied in addition to the built-in model of the callee (ghost effects only)
+	Pure         bool     // no heap effect at all (modifies nothing)
+	SameAs       string
+	Props        []string // properties this function's obligations count for
+	Where        string
+	Lets         [][2]string
 }
 
 type GhostVar struct {
@@ -64,6 +68,7 @@ type MonitorDecl struct {
 	Type   string
 	Fields []string
 	Inv    []Clause
+	Assume []Clause
 }
 
 type PredDecl struct {
@@ -364,6 +369,21 @@ func (cs *Contracts) parseContractLines(lines []string, file string, pkgPath str
 				return fmt.Errorf("%s: bad monitor decl", where)
 			}
 			cs.Monitors = append(cs.Monitors, &MonitorDecl{Pkg: pkgPath, Type: f[0], Fields: f[1:]})
+		case "monitor_assume":
+			f := strings.SplitN(rest, " ", 2)
+			if len(f) != 2 {
+				return fmt.Errorf("%s: bad monitor_assume", where)
+			}
+			cl, err := parseClause(f[1], where)
+			if err != nil {
+				return err
+			}
+			for _, m := range cs.Monitors {
+				if m.Pkg == pkgPath && m.Type == f[0] {
+					m.Assume = append(m.Assume, cl)
+				}
+			}
+			cs.Trusted = append(cs.Trusted, "assumed at lock acquisition of "+f[0]+": "+f[1])
 		case "monitor_inv":
 			f := strings.SplitN(rest, " ", 2)
 			if len(f) != 2 {
@@ -434,6 +454,18 @@ func (cs *Contracts) parseContractLines(lines []string, file string, pkgPath str
 			cur.MayPanic = true
 		case "uncalled":
 			cur.Uncalled = true
+		case "locked_assume":
+			cl, err := parseClause(rest, where)
+			if err != nil {
+				return err
+			}
+			cur.LockedAssume = append(cur.LockedAssume, cl)
+		case "callers_only":
+			cur.CallersOnly = append(cur.CallersOnly, strings.Fields(rest)...)
+		case "reveal":
+			cur.Reveal = append(cur.Reveal, strings.Fields(rest)...)
+		case "nowrap":
+			cur.NoWrap = true
 		case "nosafety":
 			cur.NoSafety = true
 		case "ghost_only":
